@@ -665,8 +665,10 @@ def check_padmm(ctx, model, case):
 
 
 def _nl_build(case):
-    """H(x,z) = A sin(x) + B (z * w(x)),  w = cos(x) when `coupled` (needs n == p) else 1:
-    J_x = A diag(cos x) - [coupled] B diag(z sin x),  J_z = B diag(w(x)) — the z-Jacobian depends on x."""
+    """H(x,z) = A sin(x) + B (z * w(x)) [+ A (x * z * z)],  w = cos(x) and the last term when `coupled` (needs n == p), else w = 1:
+    J_x = A diag(cos x) - B diag(z sin x) + A diag(z^2),  J_z = B diag(cos x) + A diag(2 x z) — both Jacobians depend on both
+    arguments, also at x = 0 or z = 0 (so that replacing one supplied argument by zeros is visible).
+    `case["x"]`, `case["z"]` are the *documented* evaluation point: the supplied value, zeros for an omitted argument."""
     import scico.numpy as snp
     from scico.function import Function
 
@@ -678,9 +680,9 @@ def _nl_build(case):
     p = B.shape[1]
     As, Bs = snp.array(A), snp.array(B)
     if case["coupled"]:
-        fn = lambda x, z: As @ snp.sin(x) + Bs @ (z * snp.cos(x))  # noqa: E731
-        Jx = A @ np.diag(np.cos(x)) - B @ np.diag(z * np.sin(x))
-        Jz = B @ np.diag(np.cos(x))
+        fn = lambda x, z: As @ snp.sin(x) + Bs @ (z * snp.cos(x)) + As @ (x * z * z)  # noqa: E731
+        Jx = A @ np.diag(np.cos(x)) - B @ np.diag(z * np.sin(x)) + A @ np.diag(z * z)
+        Jz = B @ np.diag(np.cos(x)) + A @ np.diag(2.0 * x * z)
     else:
         fn = lambda x, z: As @ snp.sin(x) + Bs @ z  # noqa: E731
         Jx = A @ np.diag(np.cos(x))
@@ -689,14 +691,25 @@ def _nl_build(case):
     return H, Jx, Jz, x, z
 
 
+def _nl_given(case):
+    """which of x, z are passed (older replays: `default_point` = neither)"""
+    if "give" in case:
+        return bool(case["give"][0]), bool(case["give"][1])
+    d = not case.get("default_point", False)
+    return d, d
+
+
 def _nl_call(case):
     import scico.numpy as snp
     from scico.optimize import NonLinearPADMM
 
     H, Jx, Jz, x, z = _nl_build(case)
     kw = dict(maxiter=case["maxiter"], key=G.make_key(case["key"]), **_factor_arg(case["factor"]))
-    if not case["default_point"]:
-        kw.update(x=snp.array(x), z=snp.array(z))
+    give_x, give_z = _nl_given(case)
+    if give_x:
+        kw["x"] = snp.array(x)
+    if give_z:
+        kw["z"] = snp.array(z)
     return _impl(lambda: NonLinearPADMM.estimate_parameters(H, **kw)), Jx, Jz
 
 
@@ -725,28 +738,39 @@ def oracle_nlpadmm(case):
 ORACLES["nlpadmm"] = oracle_nlpadmm
 
 
-def check_nlpadmm(ctx, model, rng):
-    """NonLinearPADMM.estimate_parameters on H(x,z) = A sin(x) + B (z*w(x)) with known partial Jacobians"""
+def check_nlpadmm(ctx, model, rng, fixed=None):
+    """NonLinearPADMM.estimate_parameters on H(x,z) = A sin(x) + B (z*w(x)) [+ A(x z^2)] with known partial Jacobians; each of
+    x, z is supplied or omitted independently (the documented point has zeros for an omitted argument only)"""
     import scico.random
 
-    m, n = int(rng.integers(1, 4)), int(rng.integers(1, 4))
-    coupled = bool(rng.integers(0, 2))
-    p = n if coupled else int(rng.integers(1, 4))
-    A = common.dyadic(rng, (m, n), bits=2, scale=3.0)
-    B = common.dyadic(rng, (m, p), bits=2, scale=3.0)
-    x = common.dyadic(rng, (n,), bits=2, scale=1.5)
-    z = common.dyadic(rng, (p,), bits=2, scale=1.5)
-    factor = ["default", None, 1.5, 2.0][int(rng.integers(0, 4))]
-    maxiter = int([0, 1, 3, 20, 40][int(rng.integers(0, 5))])
-    key = [None, 1, 2][int(rng.integers(0, 3))]
-    default_point = bool(rng.integers(0, 4) == 0)
-    if default_point:
-        x, z = np.zeros(n), np.zeros(p)
-    case = {"what": "nlpadmm", "A": A.tolist(), "B": B.tolist(), "x": x.tolist(), "z": z.tolist(), "factor": factor,
-            "maxiter": maxiter, "key": key, "default_point": default_point, "coupled": coupled}
-    ctx.case({"what": "nlpadmm", "factor": factor, "maxiter": maxiter, "coupled": coupled}, None if maxiter < 1 else json.dumps(case, sort_keys=True))
+    if fixed is not None:
+        case = fixed
+        A, B = np.asarray(case["A"]), np.asarray(case["B"])
+        (m, n), p = A.shape, B.shape[1]
+        factor, maxiter, key, coupled = case["factor"], case["maxiter"], case["key"], case["coupled"]
+    else:
+        m, n = int(rng.integers(1, 4)), int(rng.integers(1, 4))
+        coupled = bool(rng.integers(0, 3) > 0)
+        p = n if coupled else int(rng.integers(1, 4))
+        A = common.dyadic(rng, (m, n), bits=2, scale=3.0)
+        B = common.dyadic(rng, (m, p), bits=2, scale=3.0)
+        x = common.dyadic(rng, (n,), bits=2, scale=1.5)
+        z = common.dyadic(rng, (p,), bits=2, scale=1.5)
+        factor = ["default", None, 1.5, 2.0][int(rng.integers(0, 4))]
+        maxiter = int([0, 1, 3, 20, 40][int(rng.integers(0, 5))])
+        key = [None, 1, 2][int(rng.integers(0, 3))]
+        give = [bool(rng.integers(0, 2)), bool(rng.integers(0, 2))]
+        if not give[0]:
+            x = np.zeros(n)
+        if not give[1]:
+            z = np.zeros(p)
+        case = {"what": "nlpadmm", "A": A.tolist(), "B": B.tolist(), "x": x.tolist(), "z": z.tolist(), "factor": factor,
+                "maxiter": maxiter, "key": key, "give": give, "coupled": coupled}
+    ctx.case({"what": "nlpadmm", "factor": factor, "maxiter": maxiter, "coupled": coupled, "give": list(_nl_given(case))},
+             None if maxiter < 1 else json.dumps(case, sort_keys=True))
     ctx.count(f"nlpadmm:factor={factor}")
     ctx.count("nlpadmm:coupled" if coupled else "nlpadmm:separable")
+    ctx.count("nlpadmm:x=%s,z=%s" % tuple("given" if g else "None" for g in _nl_given(case)))
     r, Jx, Jz = _nl_call(case)
     cs = []
     for M, nn in ((Jx, n), (Jz, p)):
@@ -1068,6 +1092,13 @@ def correspond(ctx, model):
         case = {"what": "padmm", "A": dA, "B": dB, "factor": ["default", None, 1.5, 2.0][int(rng.integers(0, 4))],
                 "maxiter": int([0, 1, 2, 5, 20, 40][int(rng.integers(0, 6))]), "key": [None, 1, 2][int(rng.integers(0, 3))]}
         check_padmm(ctx, model, case)
+    # the four combinations x given/None × z given/None on a fixed coupled H (Jacobians depend on both arguments)
+    for give in ([True, True], [True, False], [False, True], [False, False]):
+        for key in (None, 1):
+            check_nlpadmm(ctx, model, rng, fixed={
+                "what": "nlpadmm", "A": [[1.0, -2.0], [0.5, 1.5]], "B": [[2.0, 0.25], [-1.0, 1.0]],
+                "x": [0.75, -1.25] if give[0] else [0.0, 0.0], "z": [1.5, -0.5] if give[1] else [0.0, 0.0],
+                "factor": "default", "maxiter": 20, "key": key, "give": give, "coupled": True})
     for i in range(ctx.n(40, 200)):
         check_nlpadmm(ctx, model, rng)
     # -- closed-form norms: every order ------------------------------------------------------
